@@ -229,7 +229,7 @@ func (c *cse) opUnlock(u *user, o opt) {
 	t := c.table()
 	var own, foreign []lockRec
 	for _, l := range t {
-		if l.Owner == u.name {
+		if l.Owner == u.ident {
 			own = append(own, l)
 		} else {
 			foreign = append(foreign, l)
@@ -312,11 +312,20 @@ func (c *cse) opUnlock(u *user, o opt) {
 	// UNLOCK GUARD: without --force the lock of a file with uncommitted changes is never released.
 	if !force && dirty && target != nil {
 		c.count("unlock_guard_checks", 1)
+		// the lock is not in this clone's cache (taken from another clone of the user, or the cache was lost):
+		// unlock --id must find the path through the server
+		unknown := byID && u.exp[target.ID] == "" && u.pol[target.ID] == ""
+		if unknown {
+			c.count("unlock_id_modified_file_lock_unknown_to_local_cache", 1)
+		}
 		gone := c.lockByID(target.ID) == nil
 		if gone {
 			trig := "unlock-by-path"
 			if byID {
 				trig = "unlock-by-id"
+			}
+			if unknown {
+				trig = "unlock-id-lock-not-in-local-cache"
 			}
 			if sub != "" {
 				trig = "cwd-subdir"
@@ -489,11 +498,11 @@ func (c *cse) opLocksVerify(u *user, o opt) {
 		// replaces; it never writes the --cached file for a limited listing).
 		if n, ok, _ := verifyOutcome(reqs); n > 0 && ok && limit > total {
 			t := c.table()
-			u.candExp, u.candPol = oursOf(t, u.name), theirsOf(t, u.name)
+			u.candExp, u.candPol = oursOf(t, u.ident), theirsOf(t, u.ident)
 			c.count("model_limited_verify_saw_whole_listing", 1)
 		} else if n > 0 && ok {
 			c.count("model_limited_verify_cut_off", 1)
-			if len(oursOf(c.table(), u.name)) > 0 {
+			if len(oursOf(c.table(), u.ident)) > 0 {
 				c.count("model_limited_verify_cut_off_while_holding_locks", 1)
 			}
 		}
@@ -619,7 +628,7 @@ func (c *cse) opLocksCached(u *user, o opt) {
 		err := json.Unmarshal(res.Stdout, &v)
 		var wo, wt []lockRec
 		for _, l := range u.snapVerify {
-			if l.Owner == u.name {
+			if l.Owner == u.ident {
 				wo = append(wo, l)
 			} else {
 				wt = append(wt, l)
@@ -656,7 +665,7 @@ func (c *cse) editFile(u *user, p string, stage bool) {
 	}
 	content := c.newContent(u, p)
 	how := "write"
-	if l := c.lockOn(p); c.flavor == "dup-content" && (c.coin(40) || (l != nil && l.Owner != u.name && c.coin(70))) {
+	if l := c.lockOn(p); c.flavor == "dup-content" && (c.coin(40) || (l != nil && l.Owner != u.ident && c.coin(70))) {
 		// content identical to another file of the same kind in the current tree
 		var cands []string
 		for _, f := range c.files {
@@ -711,6 +720,26 @@ func (c *cse) opEdit(u *user, o opt) {
 		c.editFile(u, p, c.coin(30))
 	}
 	c.observe(u, "edit", nil)
+}
+
+// opLoseCache: the clone's lock cache is lost between two commands (lfs/lockcache.db deleted, sometimes the
+// cached listings under lfs/cache/locks too). The clone then knows nothing: its expected cache is empty
+// until a command tells it something again.
+func (c *cse) opLoseCache(u *user, o opt) {
+	lfs := filepath.Join(u.dir, ".git", "lfs")
+	words := []string{"rm", "-f", ".git/lfs/lockcache.db"}
+	os.Remove(filepath.Join(lfs, "lockcache.db"))
+	if c.coin(30) {
+		os.RemoveAll(filepath.Join(lfs, "cache", "locks"))
+		words = append(words, "; rm -rf .git/lfs/cache/locks")
+		u.snapPlainOK, u.snapVerifyOK = false, false
+	}
+	c.note(u, "aux-lose-lock-cache", words...)
+	u.exp, u.pol, u.lost, u.lostWhy = map[string]string{}, map[string]string{}, map[string]string{}, ""
+	u.candExp, u.candPol = nil, nil
+	c.count("lock_cache_lost", 1)
+	c.kinds["lose-cache"] = true
+	c.observe(u, "lose-cache", nil)
 }
 
 // opRemove deletes a file from the work tree without committing (an uncommitted change: the unlock
@@ -908,7 +937,7 @@ func (c *cse) opPush(u *user, o opt) {
 	var foreignHit, ownHit []string
 	for _, l := range t {
 		if touched[l.Path] {
-			if l.Owner == u.name {
+			if l.Owner == u.ident {
 				ownHit = append(ownHit, l.Path)
 			} else {
 				foreignHit = append(foreignHit, l.Path)
@@ -920,11 +949,6 @@ func (c *cse) opPush(u *user, o opt) {
 	if state != "false" && updates > 0 {
 		t1 = c.armT1(o.t1)
 	}
-	args := append([]string{"push", "origin"}, branches...)
-	c.useRace = true
-	res, reqs := c.exec(u, "push", "", "git", args...)
-	c.useRace = false
-	c.disarm()
 	// paths whose lock check is delivered by the scanner's un-awaited goroutine: non-LFS blobs of >= 1024 bytes
 	racy := len(foreignHit) > 0
 	for _, p := range foreignHit {
@@ -932,6 +956,11 @@ func (c *cse) opPush(u *user, o opt) {
 			racy = false
 		}
 	}
+	args := append([]string{"push", "origin"}, branches...)
+	c.useRace = true
+	res, reqs := c.exec(u, "push", "", "git", args...)
+	c.useRace = false
+	c.disarm()
 	c.scanRaceLog(u, racy, strings.Join(args, " "))
 	after := c.remoteRefs()
 	refsSame := fmt.Sprint(remote) == fmt.Sprint(after)
@@ -941,7 +970,7 @@ func (c *cse) opPush(u *user, o opt) {
 		u.snapVerifyOK = false // the push rewrote the cached verifiable listing of the pushed refs
 		if verOK {
 			// both "cache unchanged" and "cache replaced" are admissible after a verified push
-			u.candExp, u.candPol = oursOf(t, u.name), theirsOf(t, u.name)
+			u.candExp, u.candPol = oursOf(t, u.ident), theirsOf(t, u.ident)
 		} else {
 			for id, p := range u.exp {
 				u.lost[id] = p
@@ -994,7 +1023,7 @@ func (c *cse) opPush(u *user, o opt) {
 			for b, tb := range perRef {
 				var hits []string
 				for _, l := range t {
-					if l.Owner != u.name && tb[l.Path] {
+					if l.Owner != u.ident && tb[l.Path] {
 						hits = append(hits, l.Path)
 					}
 				}
@@ -1086,7 +1115,10 @@ func (c *cse) prefix() []step {
 	p := lockables[c.pick(len(lockables))]
 	a, b := c.pick(2), 0
 	b = 1 - a
-	kind := []int{0, 0, 0, 1, 1, 2, 2, 3, 3, 5, 5, 6, 6, 7, 7}[c.pick(15)]
+	kind := []int{0, 0, 0, 1, 1, 2, 2, 3, 3, 5, 5, 6, 6, 7, 7, 8, 8}[c.pick(17)]
+	if c.twoClones && c.coin(85) {
+		kind = 9
+	}
 	big := false
 	switch {
 	case c.flavor == "odd-path":
@@ -1128,6 +1160,16 @@ func (c *cse) prefix() []step {
 			return []step{{a, "lock", opt{path: q}}, {b, "checkout", opt{mode: "branch"}}, {b, "unlock", opt{path: q, mode: []string{"force-path", "force-id"}[c.pick(2)]}}, {b, "checkout", opt{mode: "branch"}}, {a, "checkout", opt{mode: "branch"}}, {a, "checkout", opt{mode: "branch"}}}
 		}
 		return []step{{a, "lock", opt{path: q}}, {a, "checkout", opt{mode: "branch"}}, {a, "unlock", opt{path: q, mode: um}}, {a, "checkout", opt{mode: "branch"}}, {a, "locklocal", opt{}}}
+	case 8: // the lock cache is lost, then unlock --id of a modified file (the path must come from the server)
+		return []step{{a, "lock", opt{path: p}}, {a, "losecache", opt{}}, {a, "edit", opt{path: p}}, {a, "unlock", opt{path: p, mode: "id"}}, {a, "unlock", opt{path: p, mode: "path"}}, {a, "locksverify", opt{mode: "json"}}, {a, "commit", opt{path: p}}}
+	case 9: // second clone of a user: lock in one clone, guard / listing / hooks in the other one
+		x := c.indexOf(c.users[2].other.other) // first clone of the same identity
+		for i, w := range c.users[:2] {
+			if w.ident == c.users[2].ident {
+				x = i
+			}
+		}
+		return []step{{x, "lock", opt{path: p}}, {2, "edit", opt{path: p}}, {2, "unlock", opt{path: p, mode: "id"}}, {2, "unlock", opt{path: p, mode: "path"}}, {2, "locksverify", opt{mode: "json"}}, {2, "commit", opt{path: p}}, {2, "unlock", opt{path: p, mode: []string{"id", "path"}[c.pick(2)]}}, {x, "locksverify", opt{}}, {x, "checkout", opt{mode: "branch"}}}
 	case 7: // a verifiable listing cut off by --limit while the user holds several locks, then a hook run on a locked file
 		return []step{{a, "lock", opt{path: p}}, {a, "lock", opt{}}, {b, "lock", opt{}}, {a, "lock", opt{}}, {a, "locksverify", opt{mode: "limit"}}, {a, "commit", opt{path: p}}}
 	case 6: // file removed from the work tree without committing: guard, then --force, then restore
@@ -1141,13 +1183,13 @@ func (c *cse) prefix() []step {
 func (c *cse) randomStep(prev int) step {
 	u := prev
 	if c.coin(40) {
-		u = 1 - prev
+		u = (prev + 1 + c.pick(len(c.users)-1)) % len(c.users)
 	}
 	type w struct {
 		op string
 		n  int
 	}
-	ws := []w{{"lock", 15}, {"unlock", 15}, {"locks", 4}, {"locksverify", 8}, {"lockslocal", 2}, {"lockscached", 4}, {"checkout", 10}, {"edit", 9}, {"remove", 3}, {"commit", 12}, {"merge", 7}, {"push", 18}}
+	ws := []w{{"lock", 15}, {"unlock", 15}, {"locks", 4}, {"locksverify", 8}, {"lockslocal", 2}, {"lockscached", 4}, {"checkout", 10}, {"edit", 9}, {"remove", 3}, {"losecache", 2}, {"commit", 12}, {"merge", 7}, {"push", 18}}
 	tot := 0
 	for _, x := range ws {
 		tot += x.n
@@ -1208,6 +1250,8 @@ func (c *cse) do(s step) {
 		c.opRemove(u, s.o)
 	case "overlap":
 		c.opOverlap(u, s.o)
+	case "losecache":
+		c.opLoseCache(u, s.o)
 	case "locklocal":
 		c.opLocksLocal(u, s.o)
 	case "commit":
@@ -1235,6 +1279,9 @@ func (c *cse) bigPlainBlob(u *user, branches []string, remote map[string]string,
 	for _, b := range branches {
 		args := append([]string{"rev-list", "refs/heads/" + b}, not...)
 		for _, cm := range strings.Fields(c.plain(u.dir, args...)) {
+			if c.remoteHas(cm) {
+				continue
+			}
 			r := c.env.PlainGit(u.dir, "cat-file", "-s", cm+":"+p)
 			if !r.OK() {
 				continue
@@ -1313,4 +1360,13 @@ func (c *cse) infra(res sbx.Result) bool {
 		return true
 	}
 	return false
+}
+
+func (c *cse) indexOf(u *user) int {
+	for i, x := range c.users {
+		if x == u {
+			return i
+		}
+	}
+	return 0
 }
